@@ -175,6 +175,7 @@ def run_save(case, plan=None, log=None, hooks=None, fs=None, only_warmup=False):
     saver = None
     try:
         saver = make_saver(case, dest_arg)
+        sim.current_saver = saver           # (a simulated other thread may try to enter the same object)
         # instance reuse: the same AtomicSaver object completed earlier saves (not judged, no faults)
         sim.armed = False
         if case.get('reuse') and case.get('warm_umask') is not None:
